@@ -192,7 +192,7 @@ def reader_check(ctx, mode, mc_args, drivers, gen_args=None, l1=True, thorough_m
         traces.append(("replay", mc_reader_gen(ctx, *gen_args)))
     for d in drivers:
         tf = ctx.path(d.replace(":", "_") + ".ndjson")
-        p = C.run_harness([d, "--out", tf, "--seed", ctx.seed, "--tier", ctx.tier], timeout=3000, allow_rc=(0, -6, 134, -11, 139, -9, 137, 101))
+        p = C.run_harness([d, "--out", tf, "--seed", ctx.seed, "--tier", ctx.tier], timeout=3000, allow_rc=(0, 3, -6, 134, -11, 139, -9, 137, 101))
         if p.returncode == 101:
             raise C.ToolError("harness panicked (its own bug): " + p.stderr[-1500:])
         if p.returncode != 0:
@@ -200,7 +200,13 @@ def reader_check(ctx, mode, mc_args, drivers, gen_args=None, l1=True, thorough_m
             # and the case being executed - the last one on disk - is the witness
             lines = C.read_lines(tf)
             a = max([i for i, l in enumerate(lines) if '"ev":"case"' in l] or [0])
-            ctx.violation(lines[a:], "the process running the real code was killed (rc=%d) while executing this case: %s" % (p.returncode, p.stderr.strip().splitlines()[-1][:200] if p.stderr.strip() else ""))
+            last = p.stderr.strip().splitlines()[-1][:200] if p.stderr.strip() else ""
+            why = ("a call of the real code did not return within 20 s (hang) in this case" if p.returncode == 3
+                   else "the process running the real code was killed (rc=%d) while executing this case" % p.returncode)
+            if ctx.prop not in ("C05", "C17", "C14"):
+                # only the totality / memory properties speak about crashes and hangs; elsewhere the check cannot evaluate its property
+                raise C.ToolError("%s (driver %s); run ./check C05" % (why, d))
+            ctx.violation(lines[a:], why + ": " + last)
             with open(tf, "w") as f:
                 f.write("\n".join(lines[:a]) + ("\n" if a else ""))
                 f.write('{"ev":"end"}\n' if a else '{"ev":"case","n":0,"comp":"reader","schema":[]}\n{"ev":"end"}\n')
